@@ -69,6 +69,20 @@ func normalizeDigestHex(sha256Hex string) string {
 	return strings.ToLower(strings.TrimPrefix(sha256Hex, "sha256:"))
 }
 
+// isNormalizedDigestHex reports whether s is exactly what normalizeDigestHex
+// yields for a well-formed sha256: 64 lowercase hex characters.
+func isNormalizedDigestHex(s string) bool {
+	if len(s) != 2*sha256.Size {
+		return false
+	}
+	for _, c := range s {
+		if (c < '0' || c > '9') && (c < 'a' || c > 'f') {
+			return false
+		}
+	}
+	return true
+}
+
 // CacheLookup returns the cached artifact bytes for digestHex (already
 // normalized — see normalizeDigestHex), re-verifying the stored bytes' own
 // digest before ever returning them — never trust-on-read. A miss (absent
@@ -82,6 +96,13 @@ func normalizeDigestHex(sha256Hex string) string {
 // fresh download (see install.go's stageArtifact) — this function makes no
 // trust claim about the bytes it returns.
 func CacheLookup(connectorsPath, digestHex string) ([]byte, bool, error) {
+	// digestHex becomes a directory name below the cache root and, on a
+	// mismatch, the argument of RemoveAll: anything but 64 lowercase hex
+	// characters (e.g. "../../x") can never name a cache entry and must never
+	// be turned into a path — report a plain miss.
+	if !isNormalizedDigestHex(digestHex) {
+		return nil, false, nil
+	}
 	path := cacheArtifactPath(connectorsPath, digestHex)
 	data, err := os.ReadFile(path)
 	if err != nil {
